@@ -1,0 +1,81 @@
+//go:build verif
+
+// Machine-checked contracts (read by /verif/bin/fsv; comment-only, guarded by the verif tag).
+// C11: a cache hit skips everything inside; only cacheable results are stored; key precedence.
+
+package cachepolicy
+
+//@ frozen config.cache, config.key, config.cacheConditions, config.onHit, config.onMiss, config.onCache, cachePolicy.config, executor.BaseExecutor, executor.cachePolicy
+
+// Environment (assumed): context and execution accessors are observers.
+//@ extfunc github.com/failsafe-go/failsafe-go/policy.ExecutionInternal.Context
+//@   modifies nothing
+//@   ensures result != nil
+//@ extfunc context.Context.Value
+//@   modifies nothing
+
+// The key used for an execution: a string stored under CacheKey in the context wins over the configured key.
+//@ func (*executor).getCacheKey
+//@   requires e != nil && e.cachePolicy != nil && e.config != nil && ctx != nil
+//@   ext v := reti(ctx.Value, 1)
+//@   ensures [C11.key.precedence] (v != nil && typeis(v, string)) ==> result == strof(v)
+//@   ensures [C11.key.configured] !(v != nil && typeis(v, string)) ==> result == e.key
+//@   ensures [C11.key.lookup] ncalls(ctx.Value) == 1
+//@   modifies calls(ctx.Value)
+
+//@ func (*executor).PreExecute
+//@   requires e != nil && e.cachePolicy != nil && e.config != nil && e.cache != nil && exec != nil
+//@   requires typeis(exec, *failsafe.execution)
+//@   ext ctx := reti(exec.Context, 1)
+//@   ext v := reti(ctx.Value, 1)
+//@   let ck := ite(v != nil && typeis(v, string), strof(v), e.key)
+//@   let hit := ck != "" && retb(e.cache.Get, 1, 1)
+//@   premise e.onHit != e.onMiss || e.onHit == nil
+//@   ensures [C11.pre.nokey] ck == "" ==> ncalls(e.cache.Get) == 0
+//@   ensures [C11.pre.lookup] ck != "" ==> ncalls(e.cache.Get) == 1 && arg(e.cache.Get, 1, 0) == ck
+//@   ensures [C11.pre.hit] hit ==> result != nil && result.Result == ret(e.cache.Get, 1, 0) && result.Error == nil && result.Done && result.Success && result.SuccessAll
+//@   ensures [C11.pre.hit.events+C16.cache.hit] hit ==> ncalls(e.onMiss) == 0 && (e.onHit != nil ==> ncalls(e.onHit) == 1)
+//@   ensures [C11.pre.miss] !hit ==> result == nil
+//@   ensures [C11.pre.miss.events+C16.cache.miss] !hit ==> ncalls(e.onHit) == 0 && (e.onMiss != nil ==> ncalls(e.onMiss) == 1)
+//@   ensures [C11.pre.never_writes] ncalls(e.cache.Set) == 0
+//@   ensures [C11.pre.context_once] ncalls(exec.Context) == 1 && ncalls(ctx.Value) == 1
+//@   havoc
+//@   modifies calls(exec.Context), calls(ctx.Value), calls(e.cache.Get), calls(e.onHit), calls(e.onMiss)
+
+//@ func (*executor).PostExecute
+//@   requires e != nil && e.cachePolicy != nil && e.config != nil && e.cache != nil && exec != nil && er != nil
+//@   requires forall j int :: 0 <= j && j < len(e.cacheConditions) ==> e.cacheConditions[j] != nil
+//@   ext ctx := reti(exec.Context, 1)
+//@   ext v := reti(ctx.Value, 1)
+//@   let ck := ite(v != nil && typeis(v, string), strof(v), e.key)
+//@   let cacheable := (len(e.cacheConditions) == 0 && er.Error == nil) || (exists j int :: 0 <= j && j < len(e.cacheConditions) && appb(e.cacheConditions[j], er.Result, er.Error))
+//@   let stored := cacheable && ck != ""
+//@   ensures [C11.post.identity] result == er
+//@   ensures [C11.post.store] stored ==> ncalls(e.cache.Set) == 1 && arg(e.cache.Set, 1, 0) == ck && arg(e.cache.Set, 1, 1) == er.Result
+//@   ensures [C11.post.store.event+C16.cache.stored] stored ==> (e.onCache != nil ==> ncalls(e.onCache) == 1)
+//@   ensures [C11.post.nostore+C16.cache.notstored] !stored ==> ncalls(e.cache.Set) == 0 && ncalls(e.onCache) == 0
+//@   ensures [C11.post.never_reads] ncalls(e.cache.Get) == 0
+//@   ensures [C11.post.context] ncalls(exec.Context) == b2i(cacheable) && ncalls(ctx.Value) == b2i(cacheable)
+//@   havoc
+//@   modifies calls(exec.Context), calls(ctx.Value), calls(e.cache.Set), calls(e.onCache), calls(exec.CopyWithResult)
+
+// Through the real template: a hit never reaches anything inside the cache policy; a miss returns the inner result.
+//@ func lemmaApply
+//@   dyntype policy.Executor *executor
+//@   inlinecalls (*BaseExecutor).Apply$1
+//@   requires e != nil && e.BaseExecutor != nil && e.cachePolicy != nil && e.config != nil && e.cache != nil && innerFn != nil
+//@   requires typeis(e.Executor, *executor) && asref(e.Executor, *executor) == e
+//@   requires typeis(exec, *failsafe.execution)
+//@   requires forall j int :: 0 <= j && j < len(e.cacheConditions) ==> e.cacheConditions[j] != nil
+//@   ext ctx := reti(exec.Context, 1)
+//@   ext v := reti(ctx.Value, 1)
+//@   ext inner := cast(ret(innerFn, 1), *common.PolicyResult)
+//@   premise inner != nil
+//@   premise e.onHit != e.onMiss || e.onHit == nil
+//@   let ck := ite(v != nil && typeis(v, string), strof(v), e.key)
+//@   let hit := ck != "" && retb(e.cache.Get, 1, 1)
+//@   ensures [C11.hit_skips_inner] hit ==> ncalls(innerFn) == 0 && ncalls(e.cache.Set) == 0 && result.Result == ret(e.cache.Get, 1, 0) && result.Error == nil && result.SuccessAll
+//@   ensures [C11.miss_runs_inner] !hit ==> ncalls(innerFn) == 1 && arg(innerFn, 1, 0) == exec && result == inner
+//@   ensures [C11.nokey_untouched] ck == "" ==> ncalls(e.cache.Get) == 0
+//@   havoc
+//@   modifies calls(innerFn), calls(exec.Context), calls(ctx.Value), calls(e.cache.Get), calls(e.cache.Set), calls(e.onHit), calls(e.onMiss), calls(e.onCache), calls(exec.CopyWithResult), calls(reti(exec.Context, 2).Value)
